@@ -314,8 +314,9 @@ struct CompressedPGMIndex<K, Epsilon, EpsilonRecursive, Floating>::CompressedLev
         keys.emplace_back(sentinel);
 
         // Compress and store intercepts
-        auto max_intercept = prev_level_size - intercept_offset + 2;
+        // The first intercept can exceed prev_level_size (few keys and a large epsilon): leave room for all the entries
         auto intercepts_count = std::distance(first_intercept, last_intercept) + need_extra_segment + 1;
+        auto max_intercept = std::max<int64_t>(int64_t(prev_level_size) - intercept_offset + 2, intercepts_count);
         sdsl::sd_vector_builder builder(max_intercept, intercepts_count);
         builder.set(0);
         for (auto it = first_intercept + 1; it != last_intercept; ++it)
